@@ -30,7 +30,7 @@ IdOf(a)    == CASE a = "1" -> 1 [] a = "2" -> 2 [] a = "3" -> 3 [] OTHER -> 0
 
 \* operation names
 RegOps   == {"AddFootnote", "AddFootnoteToRun", "AddEndnote", "RemoveFootnote", "RemoveEndnote", "AddListItem", "RestartNumbering"}
-LocOps   == {"AddParagraph", "AddTable", "AddImage", "AddHeader", "AddFooter", "AddStyle", "GenerateTOC",
+LocOps   == {"AddParagraph", "AddTable", "AddImage", "AddHeader", "AddFooter", "AddStyle", "EditStyle", "GenerateTOC",
              "SetPageMargins", "SetFootnoteConfig", "RenderTextTemplate", "ConvertMd", "ToBytes", "Save", "Open"}
 AllOps   == RegOps \cup LocOps
 \* operations whose registry update is split into sub-steps in the concurrent as-built model
@@ -118,6 +118,7 @@ LocApply0(L, R, R2, d, o) ==
     [] o.op = "AddFooter"          -> [Touch(L) EXCEPT !.ftr = TRUE]
     [] o.op = "SetPageMargins"     -> [Touch(L) EXCEPT !.mar = "m20"]
     [] o.op = "AddStyle"           -> [L EXCEPT !.sty = @ + 1]
+    [] o.op = "EditStyle"          -> [L EXCEPT !.sty = @ + 100]   \* a predefined style edited in place (through its pointer)
     [] o.op = "SetFootnoteConfig"  -> [L EXCEPT !.cfg = TRUE]
     [] o.op = "RenderTextTemplate" -> [L EXCEPT !.aux = "tmpl"]
     [] o.op = "ConvertMd"          -> [L EXCEPT !.aux = "md"]
